@@ -20,7 +20,8 @@
      pick   which category the router's tests / random draw pick (None: the router fails to pick one)
      act    per action and visit: did the template evaluate / which of its categories does the service outcome
             select / could the flow be entered
-     touch  which of the references written in the node the events of this visit carry
+     touch  which of the assets the node names — by a fixed reference or template path (node_asset_refs) or by a
+            literal name / the default topic (node_implicit_refs) — the events of this visit carry
    Outside the fragment: run expiration and dial resumes, failures bubbling up to parent runs (a failed router stops
    the session here), the step limit (fuel plays its part), contact/asset state.  No proofs in this file. *)
 From Coq Require Import List NArith Bool.
@@ -31,6 +32,7 @@ Open Scope N_scope.
 Inductive act_outcome := AOk (k : nat) | ASkip.
 
 Section Exec.
+  Variable names : list named.       (* which asset a literal name denotes (Inspect.node_implicit_refs) *)
   Variable A : list flow.
   (* the last-but-one argument of each oracle is the index (in order of creation) of the step concerned *)
   Variable pick : N -> N -> nat -> option N.            (* flow id, node id, step index -> category id *)
@@ -179,7 +181,7 @@ Section Exec.
                         let t := idx in
                         let o := {| os_run := N.of_nat r; os_parent := opt_nat_to_N (r_parent rr); os_flow := r_flow rr;
                                     os_node := nid; os_saved := act_saves (r_flow rr) nid t 0 (n_actions n);
-                                    os_touched := filter (touch (r_flow rr) nid t) (node_asset_refs n);
+                                    os_touched := filter (touch (r_flow rr) nid t) (node_asset_refs n ++ node_implicit_refs names n);
                                     os_exit := None; os_resumed := false |} in
                         let runs1 := set_last (s_runs st) r idx in
                         match act_pushed (r_flow rr) nid t 0 (n_actions n) None with
